@@ -26,7 +26,7 @@ func (C10) Info() core.Info {
 	return core.Info{
 		Rule:        "general worlds (planned and random, all label features, cycles, generators) in which a Convert(T, args) and a Call of a simulator-made identity target func(T) T with the same options are run in one history (both orders), T concrete or interface, under the same seeded schedule; some providers return a nil struct pointer on every execution so that the converted value is the zero value of T. Oracle: on worlds in the stable classes of C05 (outcome independent of iteration order) Convert returns (v,nil) iff the Call succeeds; always: a returned value is assignable to T, its provenance PERMIT-matches a type-only parameter (T,\"\"), on failure the value is nil and the error non-nil; when the target's parameter resolution is unique (no converter involved, one candidate supply) both deliver the same token. A twelfth of the histories convert to a pool type and then, from disjoint options, to its twin: a distinct Go type that prints the same. Non-trivial: >=1 converter; distinct = distinct (world shape, event-log hash)",
 		Assumptions: []string{"equivalence is asserted only on C05-stable worlds so that a legitimate difference in how many S1 choices the two entry points consume cannot be mistaken for disagreement"},
-		Probes:      []string{"c10_pairs", "c10_both_ok", "c10_both_fail", "c10_iface_target", "c10_value_checked", "c10_zero_value_converted", "c10_twin_type_pairs", "s1_nonidentity_perms"},
+		Probes:      []string{"c10_pairs", "c10_both_ok", "c10_both_fail", "c10_iface_target", "c10_value_checked", "c10_zero_value_converted", "c10_twin_type_pairs", "c10_generator_error_both", "s1_nonidentity_perms"},
 		Real:        realComponents,
 		Simulated:   simComponents,
 	}
@@ -103,6 +103,17 @@ func (C10) Gen(r *simrt.RNG, tier string) core.Case {
 			}
 		}
 	}
+	if r.Chance(1, 10) && !world.IsIface(ty) && len(w.Parties) >= 2 {
+		// a generator that reports an error for values of a type in play
+		g := &world.Gen{Trigger: ty, Party: 1, Fault: 2}
+		if r.Bool() && len(args) > 0 {
+			if k := w.Args[args[0]].Kind; k == world.ArgTyped || k == world.ArgNamed {
+				g.Trigger = w.Args[args[0]].Label.Type
+			}
+		}
+		w.Args = append(w.Args, world.ArgSpec{Kind: world.ArgGen, Gen: g})
+		args = append(append([]int{}, args...), len(w.Args)-1)
+	}
 	call := world.Op{Kind: world.OpCall, Target: 0, Args: args}
 	conv := world.Op{Kind: world.OpConvert, Type: ty, Args: args}
 	if r.Bool() {
@@ -159,9 +170,6 @@ func c10Valid(w world.World) bool {
 	for _, a := range w.Args {
 		switch a.Kind {
 		case world.ArgNilOpt, world.ArgNonFunc, world.ArgNilConv:
-			return false
-		}
-		if a.Kind == world.ArgGen && a.Gen.Fault == 2 {
 			return false
 		}
 	}
@@ -283,6 +291,13 @@ func (C10) Run(c core.Case, ctx *core.Ctx) []core.Violation {
 				}
 			} else if !vr.ConvNil {
 				add("convert-returned-value-with-error", "Convert returned a non-nil value together with an error")
+			}
+			if (cr.ErrKind == "injected") != (vr.ErrKind == "injected") {
+				// the only injected errors here are generator errors, raised while the
+				// (identical) options are processed: both entry points must report them
+				add("convert-disagrees-with-call", fmt.Sprintf("schedule %d: a converter generator reported an error: Call -> %s, Convert -> %s", k, errStr(cr.Err), errStr(vr.Err)))
+			} else if cr.ErrKind == "injected" {
+				ctx.St.Inc("c10_generator_error_both")
 			}
 			if stable {
 				switch {
